@@ -197,8 +197,8 @@ class Reach:
 
 def sim_eval(make, stimulus, checks):
     """checks: list of (frame index, fn(h, frame) -> z3 Bool).  True iff all hold on the simulator."""
-    from ..bmc import _TraceFrame
-    h2 = make()
+    from ..bmc import _TraceFrame, fresh
+    h2 = fresh(make)
     rec = {}
     dry = _TraceFrame(rec)
     for _, fn in checks:
